@@ -386,7 +386,7 @@ WORD_RULES = [
     Sub(r"\(\s*%s\s*\)" % ORDER_ARGS, "()", None),
     Call0(r"(?<![\w.>:])thread_state\s+(\w+)", _make_decl),                    # thread_state x(a, b, c);
     Call0(r"(?<![\w.>:])thread_state", _make),                                # temporary thread_state(a, b, c)
-    Sub(r"(?<![\w.>:])(?<!struct )thread_state\s+(\w+)\s*(=|;)", r"struct thread_state \1 \2", None),
+    Sub(r"(?<![\w.>:])(?<!struct )thread_state\s+(const\s+)?(\w+)\s*(=|;)", r"struct thread_state \1\2 \3", None),
     Method("state", "cts_state(&{recv})"), Method("state_ex", "cts_state_ex(&{recv})"), Method("tag", "cts_tag(&{recv})"),
     Method("load", "atomic_load(&{recv})"),
     Method("compare_exchange_strong", "atomic_cas_strong(&{recv}, &{0}, {1})"),
@@ -566,7 +566,7 @@ STS_RULES = [
     Call0(r"(?<![\w.>:])create_work", "vx_create_work_set_active_state()"),
     Call0(r"pika::execution::this_thread::detail::yield_k", "vx_yield_k({0})"),
     Call0(r"(?<![\w.>:])thread_state", _make),
-    Sub(r"(?<![\w.>:])(?<!struct )thread_state\s+(\w+)\s*(=|;)", r"struct thread_state \1 \2", None),
+    Sub(r"(?<![\w.>:])(?<!struct )thread_state\s+(const\s+)?(\w+)\s*(=|;)", r"struct thread_state \1\2 \3", None),
     Method("get_state", "get_state(&{recv})"),
 ] + VALUE_ACC + [
     Method("restore_state", _restore_overload),
@@ -683,7 +683,7 @@ FRAG_RULES = [
     Sub(r"\bthread_id_type\(\)", "NULL", None),
     Sub(r"(?<![\w.>])(thrd|next_thrd)\s*=(?!=)\s*([^;]+);", r"tid_assign(&\1, \2);", None),
     # thread_state locals and accessors
-    Sub(r"(?<![\w.>:])(?<!struct )thread_state\s+(\w+)\s*(=|;)", r"struct thread_state \1 \2", None),
+    Sub(r"(?<![\w.>:])(?<!struct )thread_state\s+(const\s+)?(\w+)\s*(=|;)", r"struct thread_state \1\2 \3", None),
     Method("get_state", "get_state(&{recv})"),
 ] + VALUE_ACC + [
     Method("set_state", lambda a, e: _set_state_default(a, e).replace("set_state(", "set_state_after_phase(", 1)),   # + ghost archive
